@@ -375,10 +375,17 @@ package engine
 
 //@ spec abstract isTypeErr(e error, vt validType, culprit Term) bool
 
+//@ -- C04PANIC-BEGIN typeError
 //@ func typeError
-//@   trusted
+//@   property C04 C05
 //@   modifies nothing
-//@   ensures isTypeErr(result, validType, culprit)
+//@   bind vt = validType.Term#1
+//@   bind x = TypeError#1
+//@   at-call validType.Term requires[the-atom-of-the-valid-type-given] a0 == validType
+//@   at-call TypeError requires[type-error-of-the-valid-type-s-atom-and-the-culprit-in-this-order-under-the-caller-s-bindings] called(vt) && a0 == vt && a1 == culprit && a2 == env
+//@   ensures[the-exception-built-from-it] called(x) && result == x
+//@   defines isTypeErr(result, validType, culprit)
+//@ -- C04PANIC-END typeError
 
 //@ ---------------------------------------------------------------- dispatchers (C07): each pair of dynamic types goes to the kernel of that functor
 
@@ -801,6 +808,9 @@ package engine
 //@   assume-call preserves p.delayed, p.repeat, elems(p.delayed)
 //@   at-call dynamic requires[leftmost] fn == p.delayed[0] && a0 == ctx
 //@   at-call ensurePromise requires[a-panic-of-the-alternative-is-turned-into-the-promise-returned] a0 == &promise
+//@ -- C04PANIC-BEGIN child
+//@   ensures[the-recover-wrapper-is-in-place-whenever-an-alternative-is-run] ghost(recoverWrapped)
+//@ -- C04PANIC-END child
 //@   ensures[consume] !old(p.repeat) ==> len(p.delayed) == old(len(p.delayed)) - 1 && backing(p.delayed) == old(backing(p.delayed)) && offset(p.delayed) == old(offset(p.delayed)) + 1
 //@   ensures[order] !old(p.repeat) ==> forall j int :: 0 <= j && j < len(p.delayed) ==> p.delayed[j] == old(p.delayed[j + 1])
 //@   ensures[repeat] old(p.repeat) ==> len(p.delayed) == old(len(p.delayed)) && backing(p.delayed) == old(backing(p.delayed)) && offset(p.delayed) == old(offset(p.delayed)) && p.delayed[0] == old(p.delayed[0])
@@ -881,7 +891,7 @@ package engine
 //@   ensures t != nil ==> result != nil
 
 //@ func Error
-//@   property C04
+//@   property C04 C05
 //@   modifies nothing
 //@   ensures[fresh] result != nil && fresh(result)
 //@   ensures[a-finished-promise-that-carries-exactly-the-error] result.err == err && len(result.delayed) == 0 && !result.ok && result.cutParent == nil && !result.repeat && result.recover == nil
@@ -906,6 +916,11 @@ package engine
 //@   bind r = Call#1
 //@   at-call (*Env).Unify requires[call-time-env] a0 == env && a1 == catcher
 //@   at-call (*Env).Unify requires[the-catcher-is-unified-with-the-ball-the-exception-carries] param(0) is Exception ==> a2 == (param(0) as Exception).term
+//@ -- C04PANIC-BEGIN Catch$1
+//@   at-call (*Env).Unify requires[an-error-that-is-no-prolog-term-a-recovered-panic-a-cancellation-is-offered-to-the-catcher-as-error-system-error-message] !(param(0) is Exception) ==>
+//@       a2 is *compound && (a2 as *compound).functor == atomError && len((a2 as *compound).args) == 2 &&
+//@       (a2 as *compound).args[0] is Atom && ((a2 as *compound).args[0] as Atom) == NewAtom("system_error") && (a2 as *compound).args[1] is Atom
+//@ -- C04PANIC-END Catch$1
 //@   at-call Call requires[recovery-in-its-place] uok && a0 == vm && a1 == recover && a2 == k && a3 == uenv
 //@   ensures[declines-when-no-unify] !uok ==> result == nil
 //@   ensures[recovers-when-unifies] uok ==> called(r) && result == r
@@ -924,6 +939,17 @@ package engine
 //@   at-call NewException requires[the-copy-keeps-the-bindings-the-ball-has-when-it-is-thrown] a1 == param(3)
 //@   at-call InstantiationError requires[only-for-variable] b is Variable
 //@   ensures[throw-never-succeeds-it-ends-in-an-error-that-carries-a-term] result != nil && len(result.delayed) == 0 && result.err != nil && result.err is Exception
+//@ -- C04PANIC-BEGIN Throw
+//@   bind ie = InstantiationError#1
+//@   bind ne = NewException#1
+//@   bind r1 = Error#1
+//@   bind r2 = Error#2
+//@   at-call InstantiationError requires[under-the-bindings-of-the-throw] a0 == param(3)
+//@   at-call Error#1 requires[what-is-raised-for-an-unbound-ball-is-that-instantiation-error] called(ie) && a0 is Exception && (a0 as Exception) == ie
+//@   at-call Error#2 requires[what-is-raised-is-the-exception-that-carries-the-copy-of-the-ball] called(ne) && a0 is Exception && (a0 as Exception) == ne
+//@   ensures[an-unbound-ball-raises-the-instantiation-error] b is Variable ==> called(r1) && result == r1
+//@   ensures[any-other-ball-raises-the-exception-that-carries-its-copy] !(b is Variable) ==> called(r2) && result == r2
+//@ -- C04PANIC-END Throw
 
 //@ spec abstract simplified(e *Env, t Term) Term
 
@@ -1009,16 +1035,25 @@ package engine
 //@   ensures[one-stored-entry-per-given-clause] result1 == nil ==> len(result0) == 1
 
 //@ func Call
-//@   property C03
+//@   property C03 C04 C05
 //@   nosafety
 //@   ensures[a-promise] promise != nil
+//@ -- C04PANIC-BEGIN Call
+//@   at-call ensurePromise requires[a-panic-while-the-goal-is-prepared-or-run-is-turned-into-the-promise-returned] a0 == &promise
+//@   ensures[the-recover-wrapper-is-in-place-on-every-path-error-paths-included] ghost(recoverWrapped)
 //@   bind ie = InstantiationError#1
-//@   bind unb = Error#1
-//@   at-call InstantiationError requires[only-an-unbound-goal-is-an-instantiation-error] resolve(env, goal) is Variable && a0 == env
-//@   at-call Error#1 requires[the-instantiation-error-is-the-error-raised] called(ie) && a0 is Exception && (a0 as Exception) == ie
-//@   ensures[an-unbound-goal-is-an-instantiation-error-and-nothing-is-run] resolve(env, goal) is Variable ==> called(unb) && promise == unb
+//@   bind e1 = Error#1
+//@   at-call InstantiationError requires[only-an-unbound-goal-is-an-instantiation-error-under-the-caller-s-bindings] g is Variable && a0 == env
+//@   at-call Error#1 requires[the-error-raised-is-that-instantiation-error] called(ie) && a0 is Exception && (a0 as Exception) == ie
+//@   ensures[an-unbound-goal-raises-the-instantiation-error] g is Variable ==> called(e1) && promise == e1
+//@   bind re = resourceError#1
+//@   at-call resourceError requires[running-out-of-memory-for-the-goal-s-variables-is-resource-error-memory] called(herr) && herr != nil && a0 == resourceMemory && a1 == env
+//@   at-call Error#2 requires[the-error-raised-is-that-resource-error] called(re) && a0 is Exception && (a0 as Exception) == re
+//@   bind e3 = Error#3
+//@   at-call Error#3 requires[the-error-of-compiling-the-goal-is-raised-as-it-is] called(cerr) && cerr != nil && a0 == cerr
+//@   ensures[a-goal-that-cannot-be-compiled-raises-the-compiler-s-error] called(cerr) && cerr != nil ==> called(e3) && promise == e3
+//@ -- C04PANIC-END Call
 //@   at-call compile requires[a-goal-that-is-not-unbound-is-compiled-so-that-a-non-callable-one-is-refused-there] !(resolve(env, goal) is Variable)
-//@   at-call Error#3 requires[what-compile-refuses-is-the-error-raised] called(cerr) && cerr != nil && a0 == cerr
 //@   bind cs, cerr = compile#1
 //@   at-call clauses.call requires[one-off-procedure-compiled-from-the-goal] cerr == nil && a0 == cs && a1 == vm && a3 == k && a4 == env
 //@   bind hargs, herr = makeSlice#1
@@ -1127,25 +1162,57 @@ package engine
 //@   ensures[other-names] forall n Atom :: n != name ==> (*ops)[n] == old((*ops)[n]) && has(*ops, n) == old(has(*ops, n))
 //@   ensures[no-empty-row] (forall c operatorClass :: emptyOp((*ops)[name][c])) ==> !has(*ops, name)
 
-//@ -- error constructors: they only build (allocate) an error term
-//@ func permissionError
-//@   trusted
-//@   modifies nothing
-//@ func domainError
-//@   trusted
-//@   modifies nothing
+//@ -- error constructors: verified contracts (C04PANIC-BEGIN constructors)
 //@ func InstantiationError
-//@   trusted
+//@   property C04 C05
 //@   modifies nothing
+//@   bind x = NewException#1
+//@   at-call NewException requires[error-instantiation-error-context] errorTermC04(a0) && formalC04(a0) == atomInstantiationError
+//@   at-call NewException requires[copied-under-the-caller-s-bindings] a1 == env
+//@   ensures[the-exception-built-from-that-term] called(x) && result == x
+//@ func domainError
+//@   property C04 C05
+//@   modifies nothing
+//@   bind d = validDomain.Term#1
+//@   bind x = DomainError#1
+//@   at-call validDomain.Term requires[the-atom-of-the-valid-domain-given] a0 == validDomain
+//@   at-call DomainError requires[domain-error-of-the-valid-domain-s-atom-and-the-culprit-in-this-order-under-the-caller-s-bindings] called(d) && a0 == d && a1 == culprit && a2 == env
+//@   ensures[the-exception-built-from-it] called(x) && result == x
 //@ func existenceError
-//@   trusted
+//@   property C04 C05
 //@   modifies nothing
+//@   bind o = objectType.Term#1
+//@   bind x = ExistenceError#1
+//@   at-call objectType.Term requires[the-atom-of-the-object-type-given] a0 == objectType
+//@   at-call ExistenceError requires[existence-error-of-the-object-type-s-atom-and-the-culprit-in-this-order-under-the-caller-s-bindings] called(o) && a0 == o && a1 == culprit && a2 == env
+//@   ensures[the-exception-built-from-it] called(x) && result == x
+//@ func permissionError
+//@   property C04 C05
+//@   modifies nothing
+//@   bind o = operation.Term#1
+//@   bind pt = permissionType.Term#1
+//@   bind x = PermissionError#1
+//@   at-call operation.Term requires[the-atom-of-the-operation-given] a0 == operation
+//@   at-call permissionType.Term requires[the-atom-of-the-permission-type-given] a0 == permissionType
+//@   at-call PermissionError requires[permission-error-of-operation-permission-type-culprit-in-this-order-under-the-caller-s-bindings] called(o) && called(pt) && a0 == o && a1 == pt && a2 == culprit && a3 == env
+//@   ensures[the-exception-built-from-it] called(x) && result == x
 //@ func representationError
-//@   trusted
+//@   property C04 C05
 //@   modifies nothing
+//@   bind f = flag.Term#1
+//@   bind x = RepresentationError#1
+//@   at-call flag.Term requires[the-atom-of-the-flag-given] a0 == limit
+//@   at-call RepresentationError requires[representation-error-of-the-flag-s-atom-under-the-caller-s-bindings] called(f) && a0 == f && a1 == env
+//@   ensures[the-exception-built-from-it] called(x) && result == x
 //@ func resourceError
-//@   trusted
+//@   property C04 C05
 //@   modifies nothing
+//@   bind r = resource.Term#1
+//@   bind x = ResourceError#1
+//@   at-call resource.Term requires[the-atom-of-the-resource-given] a0 == resource
+//@   at-call ResourceError requires[resource-error-of-the-resource-s-atom-under-the-caller-s-bindings] called(r) && a0 == r && a1 == env
+//@   ensures[the-exception-built-from-it] called(x) && result == x
+//@ -- C04PANIC-END constructors
 
 //@ spec fun defIn(vm *VM, name Atom, c int) bool = !emptyOp(vm.operators[name][c])
 
@@ -2292,7 +2359,7 @@ package engine
 
 //@ -- named so that its results can be bound in VM.compile; nothing is claimed about it (any result, any effect)
 //@ func (*VM).Compile
-//@   property C13 C20 C15 C18
+//@   property C13 C20 C15 C18 C04
 //@   requires vm != nil
 //@   nosafety
 //@   at-call (*VM).compile requires[the-text-is-compiled-by-this-vm-hence-read-with-its-operator-table] a0 == vm
@@ -2305,6 +2372,11 @@ package engine
 //@   ensures[a-separated-predicate-is-reported] cerr == nil && called(ferr) && ferr != nil ==> result == ferr
 //@   bind gok, gerr = (*Promise).Force#1
 //@   ensures[an-error-or-a-cancellation-of-an-initialization-goal-is-reported] called(gerr) && gerr != nil ==> result == gerr
+//@ -- C04PANIC-BEGIN Compile
+//@   bind gp = Call#1
+//@   at-call (*Promise).Force#1 requires[what-is-forced-is-the-promise-of-the-initialization-goal-under-the-caller-s-context] called(gp) && a0 == gp && a1 == ctx
+//@   at-call Call#1 requires[the-goal-runs-on-this-machine] a0 == vm
+//@ -- C04PANIC-END Compile
 //@   loop 2 maintains[no-initialization-goal-is-passed-over-after-an-error-or-a-failure] called(gerr) && gerr == nil && gok
 //@   at-call append requires[only-a-multifile-predicate-is-extended-by-a-later-load] local(existing, *userDefined).multifile && local(u, *userDefined).multifile
 //@   at-call append requires[the-clauses-of-a-later-load-follow-the-earlier-ones-in-source-order] a0 == local(existing, *userDefined).clauses && a1 == local(u, *userDefined).clauses
@@ -2473,7 +2545,7 @@ package engine
 //@       len((result as *compound).args) == 2 && (result as *compound).args[0] == rt && (result as *compound).args[1] == atomTrue
 
 //@ func renamedCopy
-//@   property C10 C11
+//@   property C10 C11 C04 C05
 //@   assumed-post
 //@   checks only at-call at-call-missing nok maintains
 //@   nosafety
@@ -2485,6 +2557,10 @@ package engine
 //@       has(local(copied, map[termID]Term), id(resolve(env, param(0)))) && local(copied, map[termID]Term)[id(resolve(env, param(0)))] == result0
 //@   loop 1 maintains[each-element-of-a-list-is-replaced-by-its-own-copy] called(lc) && local(l, list)[local(i, int)] == lc
 //@   ensures result1 == nil ==> detached(result0)
+//@ -- C04PANIC-BEGIN renamedCopy
+//@   ensures[an-error-of-the-copy-is-an-exception] result1 != nil ==> result1 is Exception
+//@   nok[an-error-of-the-copy-is-an-exception-its-own-resource-error-or-the-error-of-the-copy-of-a-part] result1 != nil ==> result1 is Exception
+//@ -- C04PANIC-END renamedCopy
 
 //@ func FindAll
 //@   property C11
@@ -2923,7 +2999,7 @@ package engine
 //@       a0[2] is Integer && (a0[2] as Integer) == after && a0[3] is Atom && (a0[3] as Atom) == subAtom
 
 //@ func Bool
-//@   property C12
+//@   property C12 C04 C05
 //@   modifies nothing
 //@   ensures[one-of-the-two-shared-promises] result == ite(ok, truePromise, falsePromise)
 
@@ -2974,7 +3050,7 @@ package engine
 //@   at-call dynamic requires[the-aggregator-given-makes-the-result-from-the-group-s-instances-under-the-bindings-of-the-group-s-witnesses] fn == agg && a0 == tList && a1 == local(env, *Env)
 
 //@ func (*VM).directive
-//@   property C13 C20 C18
+//@   property C13 C20 C18 C04
 //@   nosafety
 //@   trusted-frame
 //@   checks only post at-call at-call-missing at-store at-store-missing
